@@ -310,6 +310,11 @@ def classify(orc, name, kind, P, entry, cursor=None, s3=None):
             # the unmarked analysis reports Q for this binding and Q is itself wrong: name the underlying mechanism
             return classify(orc, name, kind, Q, 'all_names', None, s3)
     claimed = set(q for (k, n, q) in s3 if n == name) if s3 else ()
+    if entry == 'location-other-file' and cursor and l == cursor[0]:
+        Q = (l, c + MARKLEN)
+        if Q[1] >= cursor[1] + MARKLEN and orc.judge(name, Q)[0] == 'ok' and (s3 is None or (kind, name, Q) in s3):
+            # a position in ANOTHER file, on the cursor's line number, moved left by the length of the cursor mark
+            return 'location-mark-unshift-applied-to-other-file'
     site = orc.nearest_site(name, kind, P, claimed) or orc.nearest_site(name, None, P, claimed)
     ff = bool(orc.sep_lines) and orc.sep_lines[0] <= max(l, site['pos'][0] if site else 0)
     if site is None:
@@ -382,6 +387,32 @@ class Monitor(object):
                 self.file_oracles.clear()
             self.file_oracles[path] = o
         return o or None
+
+    def other_bindings(self, path):
+        """(kind, identifier, position) triples that all_names/_global_names enumerate for another file, analysed on
+        its own (unmarked) text; None if that analysis is not available"""
+        key = ('s3', path)
+        if key in self.file_oracles:
+            return self.file_oracles[key]
+        from supp.nast import extract_scope
+        from supp.util import Source
+        out = None
+        try:
+            with open(path) as f:
+                text = f.read()
+            st, names = guarded(lambda: (lambda sc: [n for _, n in sc.all_names] + list(sc._global_names.values()))(
+                extract_scope(Source(text, path), _mk_project(os.path.dirname(path)))))
+            if st == 'ok':
+                out = set()
+                for n in names:
+                    kind = KINDS.get(type(n).__name__)
+                    P = tup(getattr(n, 'declared_at', None))
+                    if kind and P and P != (0, 0) and not getattr(n, 'is_star', False):
+                        out.add((kind, n.name, P))
+        except (OSError, UnicodeDecodeError, ValueError):
+            out = None
+        self.file_oracles[key] = out
+        return out
 
     def check(self, orc, name, kind, P, entry, case, shown_file, cursor=None, s3=None, claims=None):
         """one oracle comparison; -> True if the position is right"""
@@ -602,7 +633,22 @@ class Monitor(object):
                     sf = os.path.relpath(f, case['root']) if case.get('root') and f.startswith(case['root']) else f
                     c2 = dict(case)
                     c2.pop('root', None)
-                    r = self.check(o2, obj.name, kind, P, 'location-other-file', c2, sf, cursor=None, s3=None)
+                    s3o = self.other_bindings(f)
+                    if s3o is None:
+                        p.count('other_file_bindings_not_available(token oracle only)')
+                    if P[0] == cur[0]:
+                        p.count('other_file_entries_on_the_cursor_line_number')
+                        true_col = None
+                        if o2.judge(obj.name, P)[0] == 'ok':
+                            true_col = P[1]
+                        elif o2.judge(obj.name, (P[0], P[1] + MARKLEN))[0] == 'ok':
+                            true_col = P[1] + MARKLEN
+                        if true_col is not None and true_col >= cur[1] + MARKLEN:
+                            # the definition sits where a same-file definition would have been moved by the mark
+                            p.count('other_file_entries_on_the_cursor_line_number_right_of_cursor_plus_mark')
+                    r = self.check(o2, obj.name, kind, P, 'location-other-file', c2, sf, cursor=cur, s3=s3o)
+                    if r is False:
+                        stats['failures'] += 1
                     if r is not None:
                         p.count('location_entries_checked_in_other_files')
         return stats
@@ -673,6 +719,8 @@ PROBES = [
     ('cursor-before-binding-comprehension', 'cur_mod.py', 'xs = [1]\ny = [ab for ab in xs]\nprint(y)\n'),
     ('cursor-before-binding-lambda', 'cur_mod.py', 'g = lambda: ab; ab = 1\nprint(g)\n'),
     ('alias-equals-module', 'cur_mod.py', 'from time import time\nimport os.path as os\nimport a.b as a\nfrom b import ab as b\nprint(time, os, a, b)\n'),
+    ('other-file-definition-on-cursor-line-number', 'cur_mod.py', "from shim import text_type\ns = text_type('x')\nsquares = [value * value for value in range(3)]\n"),
+    ('other-file-long-lines', 'cur_mod.py', 'from wide import w2a, w3c, w4b, w5c\nw2a\nw3c\nprint(w4b)\nw5c\n'),
     ('except-as', 'cur_mod.py', 'try:\n    pass\nexcept   ValueError   as   e: print(e)\nexcept (KeyError, OSError)as e2:\n    print(e2)\n'),
     ('plain-layouts', 'vfp/cur_mod.py', 'import os, glob as g\nfrom . import alpha, sub as s\nfrom .alpha import (ab,\n                    b as bb)\n\n\n'
                                         '@staticmethod\ndef f(a, b=1, *args, c, **kw):\n    global G; G = 1\n    return a, b, args, c, kw\n\n\n'
@@ -869,6 +917,7 @@ def main(run):
                  'location_entries_right_of_cursor_on_cursor_line', 'except_bindings_checked',
                  'location_entries_checked_in_other_files', 'generated_texts', 'real_files',
                  'positions_compared(unsaved buffer)',
+                 'other_file_entries_on_the_cursor_line_number_right_of_cursor_plus_mark',
                  'location_entries_right_of_cursor_on_cursor_line(unsaved buffer)'),
         assumptions=[
             '"the text at that line and column is exactly the bound identifier" is decided on CPython tokens: the position '
@@ -882,6 +931,9 @@ def main(run):
             'generated texts and probes without relative imports are analysed twice: under a file name and as an unsaved '
             'buffer (filename=None, supp names it \'<string>\'), with reads that have a binding to their right on the '
             'same line queried first; a failure seen only in the second configuration gets the suffix -unsaved-buffer',
+            'entries of location() in other files are compared with that file\'s text and with the bindings all_names '
+            'enumerates for that file analysed on its own; the generated project has a long-lined module (`wide`) whose '
+            'names are read in the analysed text on the same line numbers as their definitions',
             'module entries of location() (SourceModule, position (1, 0)) are not bindings and are skipped; location() '
             'raising or not answering within 60 s is counted and left to C08',
         ],
